@@ -23,7 +23,7 @@ def run(chk, tier):
     chk.trusted_base = ["clang 14 front end", "LLVM sroa/mem2reg", "LLVM ConstantRange/KnownBits", "src/xai*.{cc,h}", "digest contracts in vlib/crypt_grid.py", "vlib/crypt_oracle.py"]
     chk.assumptions += ["phrase and setting are NUL-terminated strings; reads of these two strings carry no obligation (over-reads of caller strings are NOT decided)",
                         "the setting passed check_badsalt_chars (C05 R-FILTER-SPEC / R-FILTER-DOM establish that summary); the digest primitives obey their contracts (read (ptr,len), write result and context of their declared size)",
-                        "the crypt path of gost-yescrypt ($gy$) is NOT covered: %s; yescrypt's decode64/decode64_uint32 are replaced by contracts that rule U-CONTRACT verifies against their bodies" % K.UNCOVERED,
+                        "the crypt path of gost-yescrypt ($gy$) is covered only for settings crypt_gensalt can produce (X-COMPOSED-*), not for arbitrary settings: %s; yescrypt's decode64/decode64_uint32 are replaced by contracts that rule U-CONTRACT verifies against their bodies" % K.UNCOVERED,
                         "uninitialised reads of scratch and signed-overflow UB inside digest rounds are NOT decided"]
 
 
@@ -75,6 +75,30 @@ def extra(chk, g, tier):
         chk.fail("R-ALLOC-CHECKED", v["instance"], v["message"], v["loc"], v["detail"])
     chk.count("R-ALLOC-CHECKED", sub.rules.get("R-ALLOC-CHECKED", {"ok": 0})["ok"], ["alloc"])
     chk.rules["R-ALLOC-CHECKED"]["desc"] = "allocator results are compared with their failure value before use; a failed mmap never escapes as a usable region (imported from C15)"
+    # gost-yescrypt: not in the crypt grid (see K.UNCOVERED); for the settings crypt_gensalt can produce (exact lengths) the
+    # composition grid interprets its whole crypt path, with the same obligations on every access
+    from .. import compose_grid as CG
+    cg = CG.run(tier)
+    ngy = 0
+    for cid, c in sorted(cg["res"].items()):
+        if cg["meta"][cid]["row"]["prefix"] not in K.UNCOVERED:
+            continue
+        if c["budget"]:
+            chk.deferred.append("composition cell %s exhausted its path budget" % cid)
+        for p in c["paths"]:
+            hard = [a for a in p["alarms"] if a["kind"] in O.HARD]
+            for a in hard[:2]:
+                chk.fail("X-COMPOSED-" + ("R" if a["kind"] in ("R", "UNINIT") else "W"), "%s@%s:%d|%s" % (a["kind"], a["fn"], a["line"], cg["meta"][cid]["method"]),
+                         "%s in %s line %d: %s [crypt_rn with a generated %s setting of %d characters]" % (a["kind"], a["fn"], a["line"], a["msg"], cg["meta"][cid]["method"], len(cg["meta"][cid]["pattern"])),
+                         "%s:%d" % (a["fn"], a["line"]), {"cell": cid})
+            if not hard:
+                chk.count("X-COMPOSED-W", p["nW"])
+                chk.count("X-COMPOSED-R", p["nR"])
+                ngy += 1
+    if K.UNCOVERED and ngy < 2:
+        raise AnalysisBroken("no composition cell covers the methods that the crypt grid leaves out (%s)" % sorted(K.UNCOVERED))
+    for r_ in ("X-COMPOSED-W", "X-COMPOSED-R"):
+        chk.rules.setdefault(r_, {"instances": 0, "ok": 0, "desc": ""})["desc"] = "memory accesses of the methods outside the crypt grid (gost-yescrypt), interpreted for every setting crypt_gensalt can produce"
     # gensalt entry points: reuse the C13 grid obligations
     from .. import gensalt_grid as G, gensalt_oracle as GO
     gg = G.run(tier)
